@@ -585,6 +585,10 @@ func judge(r *core.Run, m *Mutant) {
 		if err != nil {
 			return
 		}
+		if len(m.Data)%2 == 0 {
+			// the order real callers use: look at the content first, verify then
+			env.Content()
+		}
 		content, err = env.Verify()
 	})
 	key := m.Class + "/" + m.Region
@@ -702,8 +706,28 @@ func judge(r *core.Run, m *Mutant) {
 		fail("signature-bytes", "the returned signature bytes differ from the envelope's")
 		return
 	}
+	// what was returned belongs to the caller: processing another envelope
+	// afterwards must not change it
+	keepPayload := append([]byte{}, content.Payload.Content...)
+	keepSig := append([]byte{}, si.Signature...)
+	if other := otherEnvelope[m.MT]; other != nil {
+		core.Guard(func() {
+			if e, perr := signature.ParseEnvelope(m.MT, other); perr == nil {
+				e.Content()
+				e.Verify()
+			}
+		})
+		if !bytes.Equal(keepPayload, content.Payload.Content) || !bytes.Equal(keepSig, si.Signature) {
+			fail("returned-content-changed-by-later-call", "the payload / signature bytes returned for this envelope changed when another envelope was processed afterwards")
+			return
+		}
+	}
 	r.Count("accepted-and-confirmed", 1)
 }
+
+// otherEnvelope is a valid envelope per format that is processed after every
+// accepted mutant (set once the corpus exists).
+var otherEnvelope = map[string][]byte{}
 
 func clip(b []byte) []byte {
 	if len(b) > 80 {
@@ -736,6 +760,9 @@ func run(r *core.Run) int {
 		"non-trivial = the mutant differs from its parent inside a signed region, or is a splice / substitution; distinct by content hash"
 	r.Assume("the oracle decodes with encoding/json, encoding/base64 and fxamacker/cbor; ECDSA/RSA-PSS verification is std crypto")
 	c := buildCorpus(!r.Quick())
+	for _, mt := range []string{sims.JWS, sims.COSE} {
+		otherEnvelope[mt] = c.family[mt][2].raw
+	}
 	var muts []Mutant
 	add := func(m Mutant) { muts = append(muts, m) }
 	for _, d := range c.donors {
@@ -761,7 +788,7 @@ func run(r *core.Run) int {
 	reencodings(c, add)
 	r.Set("corpus_members", len(c.donors))
 	r.Set("mutants", len(muts))
-	core.Parallel(len(muts), func(i int) {
+	r.Parallel(len(muts), func(i int) {
 		m := &muts[i]
 		judge(r, m)
 		if m.Class != "control" && m.Region != "structure" && m.Region != "encoding" && m.Region != "signature-slack" {
